@@ -1185,7 +1185,7 @@ class BareServer():
         Timeout stale connections
         """
         self.servant.serviceConnects()
-        for ca, ix in self.servant.ixes.items():
+        for ca, ix in list(self.servant.ixes.items()):  # list since may close during iteration
             # check for and handle cutoff connections by client here
 
             if ca not in self.stewards:
@@ -1199,11 +1199,14 @@ class BareServer():
         """
         Service pending requestants and responders
         """
-        for ca, steward in self.stewards.items():
+        for ca, steward in list(self.stewards.items()):  # list since may close during iteration
             if not steward.waited:
                 steward.requestant.parse()
 
                 if steward.requestant.ended:
+                    if steward.requestant.errored:  # malformed request so give up on connection
+                        self.closeConnection(ca)
+                        continue
                     steward.requestant.dictify()
                     logger.info("Parsed Request: %s %s %s",
                                 steward.requestant.method,
